@@ -351,3 +351,27 @@ def loopcontext_algebra(ctx):
             ctx.ok("form:cycle", db.where(cy), t)
         else:
             ctx.undecided("form:cycle", db.where(cy), "cycle body `%s` not recognised" % t)
+
+
+@rule("C03.loop-detection", min_instances=3)
+def loop_detection(ctx):
+    """the scan that decides whether a `% for` body uses `loop` covers the whole body: every visitor of LoopVariable either finds `loop` in the node or descends into all of its children, on every path"""
+    db = ctx.db
+    from ..engine import cfg as cfgmod, pattern as P
+    from .common import calls, stmt_nodes
+    ms = db.methods("codegen.LoopVariable")
+    helper = ms.get("_loop_reference_detected")
+    ctx.require(helper is not None, "LoopVariable._loop_reference_detected not found")
+    ok = P.has(helper, "if 'loop' in $n.undeclared_identifiers():\n    self.detected = True\nelse:\n    for $c in $n.get_children():\n        $c.accept_visitor(self)")
+    ctx.check(ok, "helper", db.where(helper), "_loop_reference_detected no longer means: `loop` named by the node, else look into every child", "node names loop, else every child is visited")
+    for name, fn in ms.items():
+        if not name.startswith("visit"):
+            continue
+        g = cfgmod.function_cfg(fn)
+        deleg = [x for c in calls(fn, "self._loop_reference_detected") for x in stmt_nodes(g, c)]
+        good, path = g.must_pass(g.entry, deleg, exits=[g.exit], kinds=("n",))
+        ctx.check(bool(deleg) and good, "visitor:" + name, db.where(fn), "LoopVariable.%s can return without scanning the node and its children (%s): a `loop` reference there (e.g. loop.parent inside a nested for) is missed and the enclosing for gets no loop context" % (name, g.fmt_path(path)), "every path scans the node")
+    need = {"visitControlLine", "visitCode", "visitExpression"}
+    ctx.check(need <= set(ms), "visitors-present", db.where(db.cls("codegen.LoopVariable")), "LoopVariable lacks visitors %s" % sorted(need - set(ms)), "control lines, code blocks and expressions are scanned")
+    mm = db.func("codegen.mangle_mako_loop")
+    ctx.check(P.has(mm, "$v = LoopVariable()\n$n.accept_visitor($v)\nif $v.detected:\n    ...\nelse:\n    ...") or P.has(mm, "$v = LoopVariable()\n$n.accept_visitor($v)\nif $v.detected:\n    ..."), "used", db.where(mm), "mangle_mako_loop does not base its decision on a LoopVariable scan of the for line", "decision = LoopVariable scan of the for node")
